@@ -46,6 +46,10 @@ func runC13(r *an.Run) {
 	eachChangeOnItsOwn(r, "R9-each-change-is-parsed-and-compiled-on-its-own", false)
 	noTransientBufferRetained(r, "R10-kept-text-is-not-a-window-into-a-read-buffer")
 	bothSidesSeeTheSameDeclarations(r, "R11-both-sides-read-names-by-the-same-declarations")
+	// a "..." written in the first column of the first line and one written after a space (or below a blank
+	// line) mean the same: the implicit leading elision is anchored at the patch start on both sides
+	c04ImplicitDots(r)
+	relabel(r, "R9-implicit-leading-and-trailing-elision", "R12-a-first-column-elision-is-the-implicit-one")
 }
 
 func c13CommentsSkipped(r *an.Run) {
